@@ -103,7 +103,7 @@ func c09FromJSON(raw json.RawMessage, idField string) (c09Response, error) {
 
 func TestC09(t *testing.T) {
 	c := evid.New("C09")
-	c.Rule = "lists of 1-8 postings: accounts from the full address grammar (segments with - _ :, world on either side, self-transfers), assets from the full asset grammar, amounts {0,1,..,2^63-1,2^63,2^64,10^k,random >64-bit}, repeated accounts and repeated (amount, asset) pairs, chains where posting k spends what posting k-1 delivered; metadata, reference, explicit timestamps (any zone, 0-9 fractional digits) or none; starting balances seeded by funding transactions; invalid variants (negative amount, malformed address or asset, one bad posting in the middle, insufficient funds). Four entry points over a real Commander + model store: Commander.CreateTransaction(TxToScriptData), POST /v2/{l}/transactions, POST /{l}/transactions (v1), a CREATE_TRANSACTION bulk element (which follows 0-2 other CREATE_TRANSACTION elements with metadata, reference and timestamp of their own: nothing of theirs may reach it, a request without reference is never answered CONFLICT, a request without timestamp never carries another element's). Oracle: success => the answer and the single new NEW_TRANSACTION log entry contain exactly the requested postings (no normalisation), metadata, reference and instant (microseconds); failure => error answer, no entry, balances unchanged. Non-trivial = >=3 postings with a repeated account or repeated monetary, or a chain, or a zero / >64-bit amount; distinct by (entry point, postings, balances)."
+	c.Rule = "lists of 1-8 postings (one case in eight: 9-36 postings over 9-30 distinct accounts): accounts from the full address grammar (segments with - _ :, world on either side, self-transfers), assets from the full asset grammar, amounts {0,1,..,2^63-1,2^63,2^64,10^k,random >64-bit}, repeated accounts and repeated (amount, asset) pairs, chains where posting k spends what posting k-1 delivered; metadata, reference, explicit timestamps (any zone, 0-9 fractional digits) or none; starting balances seeded by funding transactions; invalid variants (negative amount, malformed address or asset, one bad posting in the middle, insufficient funds). Four entry points over a real Commander + model store: Commander.CreateTransaction(TxToScriptData), POST /v2/{l}/transactions, POST /{l}/transactions (v1), a CREATE_TRANSACTION bulk element (which follows 0-2 other CREATE_TRANSACTION elements with metadata, reference and timestamp of their own: nothing of theirs may reach it, a request without reference is never answered CONFLICT, a request without timestamp never carries another element's). Oracle: success => the answer and the single new NEW_TRANSACTION log entry contain exactly the requested postings (no normalisation), metadata, reference and instant (microseconds); failure => error answer, no entry, balances unchanged. Non-trivial = >=3 postings with a repeated account or repeated monetary, or a chain, or a zero / >64-bit amount; distinct by (entry point, postings, balances)."
 	c.Assumptions = []string{"the PostgreSQL store is replaced by the model store (harness/enginesim); one request at a time"}
 	runProp(t, c, func(rt *rapid.T) {
 		store, commander, stop := enginesim.Standalone()
@@ -112,13 +112,26 @@ func TestC09(t *testing.T) {
 		entry := rapid.SampledFrom([]string{"commander", "v2", "v1", "bulk"}).Draw(rt, "entry")
 		// accounts
 		pool := []string{"world"}
-		for i, n := 0, rapid.IntRange(1, 4).Draw(rt, "nAcc"); i < n; i++ {
-			pool = append(pool, gen.Address().Draw(rt, "acc"))
+		nAcc := rapid.IntRange(1, 4).Draw(rt, "nAcc")
+		many := rapid.IntRange(0, 7).Draw(rt, "manyAccounts") == 0
+		if many {
+			// more distinct accounts than fingers: whatever numbers, names or sorts them must keep them apart
+			nAcc = rapid.IntRange(9, 30).Draw(rt, "nAccMany")
+		}
+		for i := 0; i < nAcc; i++ {
+			a := gen.Address().Draw(rt, "acc")
+			if many {
+				a = fmt.Sprintf("%s:%03d", a, i) // distinct by construction
+			}
+			pool = append(pool, a)
 		}
 		assets := []string{gen.Asset().Draw(rt, "asset1"), gen.Asset().Draw(rt, "asset2")}
 		// seed balances
 		seeded := 0
 		for _, a := range pool[1:] {
+			if many {
+				break // world pays everybody in this class: no starting balances needed
+			}
 			for _, as := range assets {
 				if rapid.IntRange(0, 2).Draw(rt, "seed") == 0 {
 					continue
@@ -137,10 +150,17 @@ func TestC09(t *testing.T) {
 		before := c09Snapshot(store)
 		// the request
 		n := rapid.IntRange(1, 8).Draw(rt, "nPostings")
+		if many {
+			n = rapid.IntRange(nAcc, nAcc+6).Draw(rt, "nPostingsMany")
+		}
 		var ps []c09Posting
 		invalid := ""
 		for i := 0; i < n; i++ {
 			p := c09Posting{Source: rapid.SampledFrom(pool).Draw(rt, "src"), Destination: rapid.SampledFrom(pool).Draw(rt, "dst"), Asset: rapid.SampledFrom(assets).Draw(rt, "asset"), Amount: gen.Amount().Draw(rt, "amount")}
+			if many {
+				// world pays every account of the pool in turn
+				p.Source, p.Destination = "world", pool[1+i%(len(pool)-1)]
+			}
 			if rapid.Bool().Draw(rt, "smallAmount") {
 				p.Amount = big.NewInt(int64(rapid.IntRange(0, 100).Draw(rt, "small")))
 			}
